@@ -27,6 +27,11 @@ COQ_LABELS = ["A_values", "A_support", "A_dim", "B_values", "B_support", "B_dim"
 def generate(rng, tier):
     nt, nq = (60, 30) if tier == "quick" else (500, 250)
     cases = fc.fem_mesh_cases(rng, tier, nt, nq, far=True)
+    # a two-sided sheet: every triangle of a patch listed twice, the second time with the opposite winding (both faces carry
+    # stiffness and mass; the mesh is closed and edge-manifold in the sense of C09)
+    v, t = gm.grid(2, 2, rng, "smooth", "alt")
+    cases.append({"kind": "tria", "family": "two_sided_sheet", "v": v, "t": [list(r) for r in t] + [[r[0], r[2], r[1]] for r in t],
+                  "lump": False, "vdtype": "float64", "tdtype": "int64"})
     # a surface patch in nanometre units (coordinates ~1e-9, 4 * area ~1e-18, far below the machine epsilon: finding F27)
     for k in range(2):
         v, t = gm.grid(3, 2, rng, "smooth", "alt")
